@@ -499,10 +499,11 @@ impl Shared {
                             .closest_nodes(InfoHash::from(*target))
                             .map(|n| (n.id().into(), n.addr()))
                             .collect();
+                        let table = tablemon::dump_table(&g);
                         drop(g);
                         self.net.api(
                             step,
-                            ApiEv::Closest { node: *node, target: *target, ids },
+                            ApiEv::Closest { node: *node, target: *target, ids, table },
                         );
                     }
                 }
